@@ -58,7 +58,10 @@ CHECKS = {
          "Every n<=768/4096 x planners x types x directions x chunk counts 1..8, the ill-shaped immutable shapes, and thousands of structured lengths; half of the cases hold the input in a read-only mapping.",
          "Also run on the debug-assertion build.", "3/C15"),
 }
-NOT_YET = {"C16": "witness generator not built yet in this revision (generated downstream programs type-checked against the public API; see DESIGN.md section 3/C16)"}
+NOT_YET = {}
+CHECKS["C16"] = ("Hypothesis-generated downstream programs (subsets/orders of a 6.4.1 API-use snippet catalogue) with the compiler's type check against /repo (guard off) as the oracle; failures reduced to single snippets",
+         "The full catalogue, every snippet alone and 24 (quick) / 200 (thorough) generated subsets are type-checked against the current tree; a changed signature, bound, receiver, removed item or lost auto-trait fails the snippet that names it.",
+         "One catalogue stands for all downstream programs; additive changes never fail it.", "3/C16")
 
 def main():
     props = [json.loads(l) for l in open(os.path.join(HERE, "properties.jsonl"))]
@@ -74,7 +77,7 @@ def main():
                 "thorough_cmd": f"./vf check {i} --tier thorough",
                 "evidence_file": f"evidence/{i}.json",
                 "replay_cmd_template": "./vf replay {path}",
-                "engine": "vf-engine",
+                "engine": "witness" if i == "C16" else "vf-engine",
                 "level_claimed": {"category": "exploration", "text": text, "design_ref": f"DESIGN.md section {ref}"},
                 "level_note": note,
                 "technique": tech,
@@ -92,7 +95,9 @@ def main():
             "add_only": True,
         },
         "engines": [
-            {"name": "vf-engine", "path": "engine/", "serves_properties": sorted(CHECKS.keys()),
+            {"name": "witness", "path": "witness/", "serves_properties": ["C16"],
+             "kind_free_text": "Python + Hypothesis: generates downstream Rust programs from a snippet catalogue, oracle = cargo check against /repo with the guard off"},
+            {"name": "vf-engine", "path": "engine/", "serves_properties": sorted(k for k in CHECKS.keys() if k != "C16"),
              "kind_free_text": "Rust binary: proptest-driven generators + bounded-exhaustive enumeration, explicit oracles (double-double reference DFT, exact GF(p^2) DFT, metamorphic relations, guard-page allocator), 16 worker subprocesses, shrinking to JSON replay files"},
         ],
         "checks": checks,
